@@ -54,12 +54,30 @@ with open('/verif/seeded/RESULTS.md', 'w') as f:
             '|---|---|---|---|---|---|---|---|\n')
     for r in rows:
         f.write('| ' + ' | '.join(r) + ' |\n')
+    waves = collections.OrderedDict()
+    fm = set(n_ for n_, _, _ in first_missed)
+    for r in rows:
+        if r[4] != 'yes':
+            continue
+        w = waves.setdefault(r[0].split('-')[1][0], [0, 0, 0])
+        w[0] += 1
+        w[1] += (r[5] != 'MISSED' and r[0] not in fm)
+        w[2] += (r[5] != 'MISSED')
+    f.write('\n## Per wave\n\n| wave | confirmed changes | reported by the checks as they stood | reported now |\n'
+            '|---|---|---|---|\n')
+    for w, (a, b, c_) in waves.items():
+        f.write('| -%s* | %d | %d | %d |\n' % (w, a, b, c_))
     missed = [r for r in rows if r[4] == 'yes' and r[5] == 'MISSED']
     f.write('\n## Confirmed changes that no check reports\n\n')
     if not missed:
         f.write('none\n')
     for r in missed:
-        f.write('* %s: %s (needs: %s)\n' % (r[0], r[2], r[3]))
+        why = ''
+        try:
+            why = json.load(open('/verif/seeded/%s/meta.json' % r[0])).get('not_judged', '')
+        except Exception:
+            pass
+        f.write('* %s: %s (needs: %s)%s\n' % (r[0], r[2], r[3], (' - ' + why) if why else ''))
     if superseded:
         f.write('\n## Changes superseded by a later repair of /repo (not counted above)\n\n')
         for n_, t_ in superseded:
